@@ -38,19 +38,19 @@ func realLit(f float64) string {
 var c07Models = []string{"rawdist", "pdist", "jc", "k2p", "f81", "f84", "tn93"}
 
 type c07case struct {
-	names, seqs          []string
-	model                int
-	gamma                bool
-	alpha                dyadic
-	rmgaps               bool
-	gapmode              int
-	rmamb                bool
-	weights              []dyadic
-	ranges               *[4]int // nil = the usual half matrix
-	useWeights           bool
-	class                string
-	matrix               [][]float64
-	term                 string
+	names, seqs []string
+	model       int
+	gamma       bool
+	alpha       dyadic
+	rmgaps      bool
+	gapmode     int
+	rmamb       bool
+	weights     []dyadic
+	ranges      *[4]int // nil = the usual half matrix
+	useWeights  bool
+	class       string
+	matrix      [][]float64
+	term        string
 }
 
 func runDist(cs *c07case, cpus int) (mat [][]float64, class string) {
